@@ -24,13 +24,13 @@ open SppModel.Frozen.HeaderUpdates
 /-! ## 1. tstart -/
 
 theorem tstart_Filterbank_collapse (h : Hdr) (start tim_len : ℚ) :
-    (Filterbank_collapse h start tim_len).tstart = h.tstart + start * h.tsamp / 86400 := rfl
+    (Filterbank_collapse h tim_len start).tstart = h.tstart + start * h.tsamp / 86400 := rfl
 
 theorem tstart_Filterbank_dedisperse (h : Hdr) (dm md nread start : ℚ) :
     (Filterbank_dedisperse h dm md nread start).tstart = h.tstart + start * h.tsamp / 86400 := rfl
 
 theorem tstart_Filterbank_read_chan (h : Hdr) (start tim_len : ℚ) :
-    (Filterbank_read_chan h start tim_len).tstart = h.tstart + start * h.tsamp / 86400 := rfl
+    (Filterbank_read_chan h tim_len start).tstart = h.tstart + start * h.tsamp / 86400 := rfl
 
 theorem tstart_Filterbank_invert_freq (h : Hdr) (start : ℚ) :
     (Filterbank_invert_freq h start).tstart = h.tstart + start * h.tsamp / 86400 := rfl
@@ -90,9 +90,9 @@ example (h : Hdr) (dm nsub : ℚ) : (Filterbank_subband h dm nsub 0).tstart = h.
 /-! ## 2. shape / depth / dm -/
 
 theorem shape_Filterbank_collapse (h : Hdr) (start tim_len : ℚ) :
-    (Filterbank_collapse h start tim_len).nchans = 1 ∧
-    (Filterbank_collapse h start tim_len).dm = 0 ∧
-    (Filterbank_collapse h start tim_len).nsamples = tim_len := ⟨rfl, rfl, rfl⟩
+    (Filterbank_collapse h tim_len start).nchans = 1 ∧
+    (Filterbank_collapse h tim_len start).dm = 0 ∧
+    (Filterbank_collapse h tim_len start).nsamples = tim_len := ⟨rfl, rfl, rfl⟩
 
 theorem shape_Filterbank_dedisperse (h : Hdr) (dm md nread start : ℚ) :
     (Filterbank_dedisperse h dm md nread start).dm = dm ∧
